@@ -8,7 +8,7 @@ from hypothesis import strategies as st
 from ..runner import Shard, Violation
 from ..core import expect_return
 from ..driver import Ctx, run, loop_mode, close_orphans
-from ..values import Item
+from ..values import Item, AwaitableItem, AwaitedDataError
 from .. import env
 
 env.setup()
@@ -118,6 +118,11 @@ def grid():
         for steps in range(0, length + 2):
             out.append({"adapter": "any_iter", "outer": outer, "container": container, "items": items,
                         "length": length, "steps": steps})
+            if items != "plain" and length in (1, 3) and outer in ("plain", "coroutine"):
+                # the VALUES behind the awaitable items are themselves awaitable objects (handles passed around as
+                # data): exactly one layer is resolved, the value is handed on un-awaited
+                out.append({"adapter": "any_iter", "outer": outer, "container": container, "items": items,
+                            "length": length, "steps": steps, "data": "awaitable"})
     for items, length in itertools.product(("coroutine", "object", "suspending", "futurelike", "gencoro"), range(0, 7)):
         for container in ("list", "iter"):
             for steps in range(0, length + 2):
@@ -129,7 +134,7 @@ def grid():
 def check_grid(case):
     ctx = Ctx("a")
     log = []
-    plain = [Item(i % 3, i) for i in range(case["length"])]
+    plain = [Item(i % 3, i) if case.get("data") != "awaitable" else AwaitableItem(i) for i in range(case["length"])]
     wrapped = [wrap(ctx, case["items"], item, log, k) for k, item in enumerate(plain)]
     if case["container"] == "list":
         container = list(wrapped)
@@ -154,6 +159,9 @@ def check_grid(case):
                 got.append(await it.__anext__())
             except StopAsyncIteration:
                 log.append(("stop", k))
+                break
+            except AwaitedDataError as exc:
+                got.append(("value-was-awaited", exc.args))
                 break
         await it.aclose()
 
